@@ -3,11 +3,13 @@
 #![allow(warnings)]
 macro_rules! debug { ($($t:tt)*) => {} }
 #[derive(Clone, Copy, PartialEq, Eq, Debug)] pub struct ItemId(pub usize);
-/// a symbol / identifier: a base name, optionally with the configured wrapper suffix appended
-#[derive(Clone, Copy, PartialEq, Eq, Debug)] pub struct Name { pub base: u8, pub suffixed: bool }
-pub struct Suffix;
-impl core::ops::Add<Suffix> for Name { type Output = Name; fn add(self, _: Suffix) -> Name { Name { base: self.base, suffixed: true } } }
-impl core::ops::Add<&Suffix> for Name { type Output = Name; fn add(self, _: &Suffix) -> Name { Name { base: self.base, suffixed: true } } }
+/// a symbol / identifier: a base name and what was appended to it: 0 nothing, 1 the CONFIGURED wrapper suffix (what serialize.rs appends on the C side), 2 any other text
+#[derive(Clone, Copy, PartialEq, Eq, Debug)] pub struct Name { pub base: u8, pub suffixed: u8 }
+pub struct Suffix(pub u8);
+/// crate-level constants a suffix could be taken from instead of the configured one
+pub const DEFAULT_NON_EXTERN_FNS_SUFFIX: Suffix = Suffix(2);
+impl core::ops::Add<Suffix> for Name { type Output = Name; fn add(self, s: Suffix) -> Name { Name { base: self.base, suffixed: s.0 } } }
+impl core::ops::Add<&Suffix> for Name { type Output = Name; fn add(self, s: &Suffix) -> Name { Name { base: self.base, suffixed: s.0 } } }
 #[derive(Clone, Copy, PartialEq, Eq, Debug)] pub enum Attr { LinkName { mangled: bool, name: Name }, Other }
 pub mod attributes { use super::*; pub fn link_name<const MANGLE: bool>(name: &Name) -> Attr { Attr::LinkName { mangled: MANGLE, name: *name } } }
 pub struct Vec<T> { pub a: [Option<T>; 4], pub n: usize }
@@ -15,7 +17,7 @@ impl<T: Copy> Vec<T> { pub fn new() -> Self { Vec { a: [None; 4], n: 0 } } pub f
 #[derive(Clone, Copy, PartialEq, Eq, Debug)] pub struct WrapAsVariadic { pub idx_of_va_list_arg: usize, pub new_name: Name }
 pub struct Options { pub wrap_static_fns: bool }
 pub struct BindgenContext { pub o: Options, pub va_list_wrapper: Option<WrapAsVariadic> }
-impl BindgenContext { pub fn options(&self) -> &Options { &self.o } pub fn wrap_static_fns_suffix(&self) -> Suffix { Suffix } }
+impl BindgenContext { pub fn options(&self) -> &Options { &self.o } pub fn wrap_static_fns_suffix(&self) -> Suffix { Suffix(1) } }
 pub struct FunctionSig { pub variadic: bool } impl FunctionSig { pub fn is_variadic(&self) -> bool { self.variadic } }
 pub struct Item { pub id: ItemId } impl Item { pub fn id(&self) -> ItemId { self.id } pub fn location(&self) -> Option<()> { None } }
 pub struct CodegenResult { pub items_to_serialize: Vec<(ItemId, Option<WrapAsVariadic>)> }
@@ -41,10 +43,10 @@ mod proofs {
     /// `explicit_link_name` (concrete): the binding already carries a #[link_name] - an __asm__ label, a callback override, or (always, in C++) the mangled name
     /// `region`: 0 = unconstrained, 1 = exactly the region of finding F10 (static, wrapping on, not variadic), 2 = its complement
     fn case(explicit_link_name: bool, region: u8) {
-        let ctx = BindgenContext { o: Options { wrap_static_fns: kani::any() }, va_list_wrapper: if kani::any() { Some(WrapAsVariadic { idx_of_va_list_arg: kani::any(), new_name: Name { base: 9, suffixed: false } }) } else { None } };
-        let f = Function { name: Name { base: kani::any(), suffixed: false } };
-        let canonical = Name { base: kani::any(), suffixed: false };
-        let mangled = Name { base: kani::any(), suffixed: false };
+        let ctx = BindgenContext { o: Options { wrap_static_fns: kani::any() }, va_list_wrapper: if kani::any() { Some(WrapAsVariadic { idx_of_va_list_arg: kani::any(), new_name: Name { base: 9, suffixed: 0 } }) } else { None } };
+        let f = Function { name: Name { base: kani::any(), suffixed: 0 } };
+        let canonical = Name { base: kani::any(), suffixed: 0 };
+        let mangled = Name { base: kani::any(), suffixed: 0 };
         let sig = FunctionSig { variadic: kani::any() };
         let item = Item { id: ItemId(7) };
         let is_internal: bool = kani::any();
@@ -56,7 +58,7 @@ mod proofs {
         let r = f.codegen_wrapping(&ctx, &mut result, &item, &sig, is_internal, if explicit_link_name { Some(&mangled) } else { None }, canonical, &mut attrs);
         let registered = result.items_to_serialize.n;
         let mut suffix_attr = 0; let mut i = 0;
-        while i < attrs.n { if let Some(Attr::LinkName { name, .. }) = attrs.a[i] { if name == (Name { base: canonical.base, suffixed: true }) { suffix_attr += 1; } } i += 1; }
+        while i < attrs.n { if let Some(Attr::LinkName { name, .. }) = attrs.a[i] { if name == (Name { base: canonical.base, suffixed: 1 }) { suffix_attr += 1; } } i += 1; }
         if !is_internal {
             assert!(registered == 0 && suffix_attr == 0, "a wrapper is generated for a function with external linkage");
             assert!(r.is_some());
